@@ -11,7 +11,7 @@ use crate::{
     EncryptionInfos, GetDistribution, GetDistributionMut, ScratchTakeCore,
     glwe_packer::GLWEPacker,
     layouts::{
-        GGLWECompressedSeedMut, GGLWECompressedToMut, GGLWEInfos, GGLWEPreparedToRef, GGLWEToGGSWKeyCompressedToMut,
+        GGLWECompressedSeedMut, GGLWECompressedToMut, GGLWEInfos, GGLWEPreparedToRef, GGLWEToGGSWKeyCompressedSeedMut, GGLWEToGGSWKeyCompressedToMut,
         GGLWEToGGSWKeyPreparedToRef, GGLWEToGGSWKeyToMut, GGLWEToMut, GGLWEToRef, GGSWCompressedSeedMut, GGSWCompressedToMut,
         GGSWInfos, GGSWPreparedToRef, GGSWToMut, GGSWToRef, GLWE, GLWEAutomorphismKeyHelper, GLWECompressedSeedMut,
         GLWECompressedToMut, GLWEInfos, GLWEPlaintext, GLWEPlaintextToMut, GLWEPlaintextToRef, GLWEPreparedToRef,
@@ -969,7 +969,7 @@ pub unsafe trait CoreImpl<BE: Backend>: Backend {
         source_xe: &mut Source,
         scratch: &mut Scratch<BE>,
     ) where
-        R: GGLWEToGGSWKeyCompressedToMut + GGLWEInfos,
+        R: GGLWEToGGSWKeyCompressedToMut + GGLWEToGGSWKeyCompressedSeedMut + GGLWEInfos,
         E: EncryptionInfos,
         S: GLWESecretToRef + GetDistribution + GLWEInfos;
 
